@@ -1607,7 +1607,7 @@ def parser_trace(tokens, strong):
 def corr_trace(ck):
     from chython.files.daylight.tokenize import smiles_tokenize
     rng = random.Random(f'{ck.seed}:c03trace')
-    nq = 350 if ck.tier == 'quick' else 5000
+    nq = 350 if ck.tier == 'quick' else 2500
     seqs = []
     for _ in range(nq):
         seqs.append(ast_tokens(gen_ast(rng, maxn=10, bad=0.1)))
